@@ -46,3 +46,27 @@ PROPS['C04'] = dict(
     undecided_clauses=["the statement speaks of TRUE successor values; the obligations are about the REPORTED values (the bridge is C01's accuracy clause, not decidable by contracts)",
                        "values equal as rationals but reached through different floating-point sums are invisible under A-REAL (covered only by the bounded executable contracts)"],
 )
+
+COND_LEMMAS = ['L_FA_len', 'L_FA_alive', 'L_FA_full', 'L_FA_keeps', 'L_FA_from', 'L_AliveMass_pos', 'L_SumP_ext', 'L_FA_sum', 'L_Renorm_len', 'L_Renorm_at', 'L_Renorm_sum', 'L_FL_from', 'L_FL_keeps']
+A_F0 = "prune_states is verified for ANY predicate F0 satisfying the inversion rule of 'reachable from state 0 in the entry graph'; that forward reachability satisfies it is M_LFP_inv (lean/Meta.lean)"
+TAD_CONE = [('tad', q.split('.', 1)[1]) for q in _C if q.startswith('tad.') and not _C[q].get('virtual')]
+PROPS['C03'] = dict(
+    functions=fns('C03'),
+    lemmas=COND_LEMMAS,
+    assumptions=COMMON + [A_VALID, A_F0, "probabilities of probabilistic states are > 0 (Proper(G)); the solver does not validate this"],
+    trusted_base=['spec functions FilterAlive/AliveMass/Renorm/FilterLab of contracts/tad_spec.py (written from the statement: keep, in order, exactly the transitions whose target has non-zero probability; divide by the surviving mass)'],
+    undecided_clauses=[],
+    termination_unproved=['Solver.prune_states: while not finished (ghost counting argument not mechanised)'],
+    level_text="Obligations from the real AST, for transition lists of any length with dead successors in any positions: both prune_paths methods leave exactly FilterAlive(old list) (whole-list equality: order kept, nothing alive lost, nothing dead kept), the probabilistic one divided by the surviving mass (sums to 1, proved via the Renorm/SumP lemmas) and untouched when nothing was dead; prune_paths_reachability leaves exactly the transitions whose label is reachability-optimal; Solver.prune_paths/prune_reachability apply this to every Player 1 / probabilistic state and leave Player 2 states and every pre-existing list object untouched (frame); prune_states only ever replaces lists of non-Player-1 states that are NOT reachable from state 0 by the empty list (proved for any predicate satisfying the inversion rule of forward reachability).",
+    level_note="Trusted: z3/cvc5, the encoder (heap model of list objects and object fields), A-REAL. The composition inside StochasticGame.solve (that these methods are called in this order on the solver's node list) is covered by the bounded executable contracts, not yet by a contract on solve. Termination of prune_states not proved.",
+)
+PROPS['C10'] = dict(
+    functions=[q for q in _C if q.startswith('tad.')],
+    lemmas=COND_LEMMAS,
+    static=[('determinism-of-the-solver-cone', ST.determinism(TAD_CONE + [('reverse_dfs', f) for f in ('reverse_dfs', 'reverse_dfs_recursive', 'reverse_transition_list', 'reverse_transition_list_core', 'list_of_tuples_to_dict_of_lists', 'add_missing_states')]))],
+    assumptions=COMMON + [A_VALID, "init_states makes each node's next_states alias the caller's transition_list[i] (heap model: the field holds the caller's list reference)"],
+    trusted_base=['frame semantics of the encoder: every list object allocated before a call keeps its content unless the callee contract names it in `modifies`'],
+    undecided_clauses=["'solving the same description again returns identical results' is derived from the frame (description unchanged) plus the static determinism scan (the cone reads nothing but its arguments); the scan is a static argument, not an SMT obligation"],
+    level_text="Frame obligations from the real AST: every method that conditions the game (both prune_paths, prune_paths_reachability, Solver.prune_paths, prune_reachability, prune_states) is proved to modify only the `next_states` FIELD of solver nodes and NO list object that existed before the call (for all r < alloc at entry: content(r) unchanged) -- so the caller's transition lists, which the nodes alias, keep their content; the value-iteration and strategy methods are proved to modify no list and only the numeric node fields. Determinism of the cone is a static scan of the real AST.",
+    level_note="Trusted: z3/cvc5, the encoder's heap model. A contract on StochasticGame.solve composing the per-method frames is pending; the composition and the repeated-solve sequences are covered by the bounded executable contracts (description compared before/after, all orders of pruned/unpruned solves).",
+)
